@@ -518,6 +518,9 @@ func (f *Frame) enterBlock(b *ssa.BasicBlock, entryState *State, entryReach stri
 		if ti := f.typeInv(v); ti != "true" {
 			tinv = append(tinv, ti)
 		}
+		if rb := c.refBound(v, ls.watermark()); rb != "true" {
+			tinv = append(tinv, rb) // a loop-carried reference exists at the loop head (alloc.go)
+		}
 		// automatic monotonicity fact: a counter that is only incremented (decremented) by a non-negative
 		// constant on every back edge never drops below (rises above) its entry value. Sound for mathematical
 		// integers (mode int, no-overflow assumption recorded).
